@@ -340,11 +340,40 @@ def _catches_base(events):
 
 
 def _restores_overflow(events):
-    """is the overflow mode saved before the last refresh of stop() and put back in a finally after it?"""
+    """-> (restored, in_finally): is the overflow mode saved before the last refresh of stop() and put
+    back after it -- and does that also happen when the refresh raises (the restore sits in the
+    `finally` of a try that contains the refresh)?"""
     if EV["save_overflow"] not in events or EV["restore_overflow"] not in events or EV["refresh"] not in events:
-        return False
+        return False, False
     i, j, k = events.index(EV["save_overflow"]), events.index(EV["refresh"]), events.index(EV["restore_overflow"])
-    return i < j < k and EV["finally"] in events[j:k] and EV["try"] in events[i:j]
+    if not (i < j < k):
+        return False, False
+    # innermost try enclosing the refresh
+    depth, opens = 0, []
+    for pos in range(j):
+        if events[pos] == EV["try"]:
+            opens.append(pos)
+        elif events[pos] == EV["end_try"] and opens:
+            opens.pop()
+    in_finally = False
+    if opens:
+        # walk forward from the refresh to the end of that try: restore must come after its `finally` marker
+        level = 0
+        seen_finally = False
+        for pos in range(j + 1, len(events)):
+            e = events[pos]
+            if e == EV["try"]:
+                level += 1
+            elif e == EV["end_try"]:
+                if level == 0:
+                    break
+                level -= 1
+            elif level == 0 and e == EV["finally"]:
+                seen_finally = True
+            elif level == 0 and e == EV["restore_overflow"]:
+                in_finally = seen_finally
+                break
+    return True, in_finally
 
 
 def _final_room(lr_cls):
@@ -529,7 +558,9 @@ def gen_live_codes(repo):
                f"{'true' if EV['visible_unless_transient'] in ev['live_stop'] else 'false'}.\n")
     b = lambda x: "true" if x else "false"
     out.append("(* stop() puts the user's overflow mode back after its last refresh / forgets the shape it drew *)\n")
-    out.append(f"Definition live_stop_restores_overflow : bool := {b(_restores_overflow(ev['live_stop']))}.\n")
+    ro, rof = _restores_overflow(ev['live_stop'])
+    out.append(f"Definition live_stop_restores_overflow : bool := {b(ro)}.\n")
+    out.append(f"Definition live_stop_restores_in_finally : bool := {b(rof)}.\n")
     out.append(f"Definition live_stop_resets_shape : bool := {b(ev['live_stop'] and ev['live_stop'][-1] == EV['shape=None'])}.\n")
     out.append(f"Definition progress_stop_resets_shape : bool := {b(ev['progress_stop'] and ev['progress_stop'][-1] == EV['shape=None'])}.\n")
     out.append("(* _LiveRender crops the last frame of a transient display to one row less than the page *)\n")
